@@ -1115,7 +1115,14 @@ class Interp:
         if name not in allowed:
             raise OutOfReach(f"container method {name}")
         if name in ("index", "remove", "count"):
-            raise OutOfReach(f"container method {name} (needs equality)")
+            simple = lambda v: isinstance(v, (str, int, bool, type(None))) and not isinstance(v, OpaqueStr)
+            if not (isinstance(f.__self__, (list, tuple, str)) and all(simple(v) for v in f.__self__) and args and simple(args[0])):
+                raise OutOfReach(f"container method {name} (needs equality)")
+            if name == "index":
+                try:
+                    return f(*args, **kwargs)
+                except ValueError as e:
+                    raise PyRaise("ValueError", str(e))
         if name == "format":
             return OpaqueStr()
         ctx = self.ctx
